@@ -53,6 +53,19 @@ def configs(tier):
                     if spec.name in ELEM_SIGMA:
                         cfgs.append({'kind': 'spec', 'name': spec.name, 'space': sp, 'opt': o,
                                      'via': via, 'sigma': 1.0, 'sk': 'elem'})
+    from mc.props import c10
+    for name in RAWREF:
+        kinds, opts, _, sigk = c10.RAW[name]
+        sps = ((['rn3', 'ud3', 'rn3wa'] if not thorough else FR.TENS) if 'T' in kinds else []) + \
+              ((['pw_rn2_2', 'pw_ud2_2'] if not thorough else FR.POW) if 'P' in kinds else [])
+        if name == 'proximal_huber':
+            sps = [x for x in sps if x != 'rn3wa' and not x.startswith('pw_')]   # see Huber spec
+        for sp in sps:
+            for o in opts:
+                for sk in sigk:
+                    for s in (sig if sk == 'scalar' else [1.0]):
+                        cfgs.append({'kind': 'raw', 'name': name, 'space': sp, 'opt': o,
+                                     'sigma': s, 'sk': sk})
     for kind in DER_KINDS:
         for b in DER_BASES:
             for sp in (['rn3', 'ud3', 'rn3w2'] if not thorough else ['rn3', 'ud3', 'rn3w2',
@@ -97,6 +110,9 @@ def _site(cfg):
         return '%s(%s).%s[%s%s]' % (cfg['name'], o, cfg['via'], kind, sk)
     if k == 'derived':
         return '%s.%s.proximal[%s]' % (cfg['name'], cfg['der'], _space_kind(cfg['space']))
+    if k == 'raw':
+        o = ','.join('%s=%s' % kv for kv in sorted(cfg['opt'].items()) if kv[0] != 'lam')
+        return '%s(%s)[%s%s]' % (cfg['name'], o, _space_kind(cfg['space']), sk)
     if k == 'derived2':
         return '%s.%s.%s.proximal' % (cfg['name'], cfg['der'][0], cfg['der'][1])
     if k == 'sepsum':
@@ -140,6 +156,19 @@ def _build(cfg):
                 raise NotImplementedError('no documented conjugate')
             V = FR.V5
         return f, info, ref, V, spec.prox_tol
+    if k == 'raw':
+        from mc.props import c10
+        info = FR.info(cfg['space'])
+        fac = c10.RAW[cfg['name']][2](info.space, cfg['opt'])
+        ref = RAWREF[cfg['name']](info, cfg['opt'])
+
+        class _F(object):
+            proximal = staticmethod(fac)
+
+            def __call__(self, x):
+                raise NotImplementedError
+        tolr = 1e-6 if 'l2' in cfg['name'] or 'conj_l1' in cfg['name'] else 1e-9
+        return _F(), info, ref, FR.V5, tolr
     if k in ('derived', 'derived2'):
         spec = FR.BY_NAME[cfg['name']]
         info = FR.info(cfg['space'])
@@ -195,6 +224,52 @@ def _build(cfg):
                 return f0(L(x))
         return _F(), info, (lambda z: r0(P.dot(z))), spec.V, max(spec.prox_tol, 1e-9)
     raise KeyError(k)
+
+
+def _gvec(info, o, pos=False):
+    from mc.props import c10
+    if not o.get('g'):
+        return np.ones(info.n) if pos else np.zeros(info.n)
+    return np.asarray(((c10._GP if pos else c10._G) * 4)[:info.n], float)
+
+
+def _shifted(norm_ref_factory):
+    def make(info, o):
+        g, lam = _gvec(info, o), o['lam']
+        base = norm_ref_factory(info)
+        return lambda z: lam * base(np.asarray(z) - g)
+    return make
+
+
+def _conj_ball(ball_factory):
+    # (lam ||. - g||)^*(y) = ind(||y||_* <= lam) + <y, g>_W
+    def make(info, o):
+        g, lam = _gvec(info, o), o['lam']
+        ball = ball_factory(info)
+        return lambda y: ball(np.asarray(y) / lam) + info.inner(y, g)
+    return make
+
+
+RAWREF = {
+    'proximal_l1': _shifted(lambda i: FR.ref_lpnorm(i, 1)),
+    'proximal_l2': _shifted(lambda i: FR.ref_lpnorm(i, 2)),
+    'proximal_l2_squared': _shifted(lambda i: (lambda z: i.norm2(z))),
+    'proximal_l1_l2': _shifted(lambda i: FR.ref_group_l1(i, 2)),
+    'proximal_convex_conj_l1': _conj_ball(lambda i: FR.ref_ind_ball(i, INF)),
+    'proximal_convex_conj_l2': _conj_ball(lambda i: FR.ref_ind_ball(i, 2.0)),
+    'proximal_convex_conj_l1_l2': _conj_ball(lambda i: FR.ref_ind_group_ball(i, 2.0)),
+    'proximal_convex_conj_l2_squared':
+        lambda info, o: (lambda y: info.norm2(y) / (4.0 * o['lam'])
+                         + info.inner(y, _gvec(info, o))),
+    # (lam F)^*(p) = lam F^*(p / lam)
+    'proximal_convex_conj_kl':
+        lambda info, o: (lambda p, r=FR.ref_kl_cc(info, _gvec(info, o, True)):
+                         o['lam'] * r(np.asarray(p) / o['lam'])),
+    'proximal_convex_conj_kl_cross_entropy':
+        lambda info, o: (lambda p, r=FR.ref_kl_ce_cc(info, _gvec(info, o, True)):
+                         o['lam'] * r(np.asarray(p) / o['lam'])),
+    'proximal_huber': lambda info, o: FR.ref_huber(info, o['gamma']),
+}
 
 
 def _uniform(info):
